@@ -1,7 +1,7 @@
 From Coq Require Import List NArith ZArith Permutation Relations.
 From SK Require Import lib.LGraph lib.StrJoin model.C08_Model proof.C08_Spec proof.C08_Faithful proof.C08_Nauty proof.C08_SigFun proof.C08_Sound proof.C08_Invariant proof.C08_Value proof.C08_GraphSig proof.C08_Auts proof.C08_GenIdem proof.C08_Select proof.C08_Orbits.
 From SK Require Import model.C08_Digraph proof.C08_DSpec proof.C08_DSer proof.C08_DNauty proof.C08_DInvariant proof.C08_MaxDepth proof.C08_DValue proof.C08_DGraphSig proof.C08_OrbitsAut proof.C08_DAuts proof.C08_DOrbitsAut.
-From SK Require Import model.C08_Obs proof.C08_Order model.C08_Sel proof.C08_SelNauty.
+From SK Require Import model.C08_Obs proof.C08_Order model.C08_Sel proof.C08_SelNauty proof.C08_SelEquiv proof.C08_MaxDepth2.
 Import ListNotations.
 
 (** 1. Faithfulness: the canonical graph is the input relabelled by a map that is injective on its nodes;
@@ -455,3 +455,35 @@ Theorem C08_nauty_selection_default_label : forall (g : graph) (p : list N),
   nlabel_sel [SEl; SAr; SCh; SHc] [SOrd; SStd] g p = nlabel g p.
 Proof. exact nlabel_sel_default. Qed.
 Print Assumptions C08_nauty_selection_default_label.
+
+(** 21. REFUTED clause (known finding nauty-empty-selection:graph_signature:n0-vs-n1): NautyCanonicalizer.graph_signature with NO
+        node attribute selected is not sound on the pair (empty graph, single node): both labels are "||".  With the default
+        selection the two labels differ (8 holds there).  Kept as it is: making the label carry the node count would change
+        every stored graph_signature digest. *)
+Theorem C08_nauty_empty_selection_graph_signature_refuted : exists g h : graph,
+  graph_sig_label_sel [] [] g = graph_sig_label_sel [] [] h /\ length (gnodes g) <> length (gnodes h)
+  /\ graph_sig_label_sel [SEl; SAr; SCh; SHc] [SOrd; SStd] g <> graph_sig_label_sel [SEl; SAr; SCh; SHc] [SOrd; SStd] h.
+Proof. exact empty_selection_refuted. Qed.
+Print Assumptions C08_nauty_empty_selection_graph_signature_refuted.
+
+(** 22. Every attribute selection: isomorphic graphs (on the covered attributes, however numbered / inserted / oriented) get the same
+        NautyCanonicalizer.graph_signature, and the label it hashes is the minimal label of the selection's search.  (The converse
+        on the SELECTED attributes: default selection 8, order-only 11; refuted for the empty node selection, 21.) *)
+Theorem C08_nauty_selection_graph_signature_invariant : forall (D : Type) (digest : str -> D) (na : list nsel) (ea : list esel) (g h : graph),
+  wf g -> wf h -> iso_cov g h ->
+  digest (graph_sig_label_sel na ea g) = digest (graph_sig_label_sel na ea h).
+Proof. exact graph_signature_sel_invariant. Qed.
+Print Assumptions C08_nauty_selection_graph_signature_invariant.
+
+Theorem C08_nauty_selection_graph_signature_is_min_label : forall (na : list nsel) (ea : list esel) (g : graph), wf g ->
+  graph_sig_label_sel na ea g = nlabel_sel na ea g (nauty_perm_sel na ea g).
+Proof. exact graph_sig_label_sel_min. Qed.
+Print Assumptions C08_nauty_selection_graph_signature_is_min_label.
+
+(** 23. canonical_form(max_depth): whenever early_stop is reported False the search was complete - the returned permutation is the
+        canonical one, for every bound (the flag is sticky).  With 14: early_stop = False <=> nothing was cut off as far as the
+        result is concerned; early_stop = True still returns a faithful relabelling. *)
+Theorem C08_nauty_max_depth_no_early_stop : forall (md : nat) (g : graph) (p : list N), NoDup (node_ids g) ->
+  canon_md md g = Some (p, false) -> p = nauty_perm g.
+Proof. exact canon_md_no_early_stop. Qed.
+Print Assumptions C08_nauty_max_depth_no_early_stop.
